@@ -871,3 +871,9 @@ where
     }
     socket
 }
+
+#[cfg(kani)]
+#[allow(unused_imports, dead_code)]
+mod verif_harness {
+    include!(concat!(env!("HUMPHREY_VERIF"), "/kani/in_app.rs"));
+}
